@@ -16,7 +16,12 @@ COMMITTED = [
 
 def regenerate():
     """Auxiliary, outside the TLA+ technique: regenerate the committed files in a scratch copy and compare bytes."""
-    tmp = tempfile.mkdtemp(prefix='vh-codegen-')
+    # a fixed scratch location: codegen bakes env!("CARGO_MANIFEST_DIR") into its binary, and with a random directory cargo
+    # sometimes considered the binary built for the previous (deleted) directory fresh, which then looked for the .proto
+    # files there ("not in any include path")
+    tmp = os.path.join(core.WORK, 'codegen-scratch')
+    shutil.rmtree(tmp, ignore_errors=True)
+    os.makedirs(tmp)
     try:
         for d in ('codegen', 'tonic-build', 'tonic-health', 'tonic-reflection', 'tonic-types'):
             shutil.copytree(os.path.join('/repo', d), os.path.join(tmp, d), ignore=shutil.ignore_patterns('target'))
@@ -32,7 +37,8 @@ def regenerate():
             os.makedirs(core.WORK, exist_ok=True)
             with open(os.path.join(core.WORK, f'codegen_regenerate_attempt{attempt}.stderr'), 'w') as f:
                 f.write(p.stderr)
-            time.sleep(3)
+            os.utime(os.path.join(tmp, 'codegen', 'src', 'main.rs'))      # force a rebuild of the tool for the retry
+            time.sleep(2)
         if p.returncode != 0:
             last = (p.stderr.strip().splitlines() or ['?'])[-1]
             raise ToolError(f'codegen did not run in the scratch copy (rc={p.returncode}, {last[:200]}):\n' + p.stderr[-3000:])
